@@ -653,8 +653,14 @@ def instantiate (env : Env) : Cmd → World → Nat × World
     let (cb, w) := instantiate env b w
     newCmd env [.host ca .id, .host cb .id] w
   | .andC a b, w =>
-    let (ca, w) := instantiate env a w
+    -- `b` is built FIRST, so that a hosted command's index is always below its host's (the hosting forest is then
+    -- well-founded by index — Lemmas/HostLt*); command indices are not observable, abort handles are: they stay
+    -- registered in source order (a's before b's; `abort NAME` takes the first match)
+    let n0 := w.aborts.length
     let (cb, w) := instantiate env b w
+    let n1 := w.aborts.length
+    let (ca, w) := instantiate env a w
+    let w := { w with aborts := w.aborts.take n0 ++ w.aborts.drop n1 ++ (w.aborts.drop n0).take (n1 - n0) }
     (ca, spawnOn ca env [.host cb .id] w)
   | .all cs, w =>
     let (cids, w) := instantiateAll env cs w
